@@ -9,15 +9,6 @@ every legal run; density is preserved by the steps that never rename or remove c
 namespace PhyModel.Store
 open PhyModel PhyModel.Store PhyModel.Store.Store SF AL
 
-/-- `create_root_node(children, data)` is only ever called with data points not yet in the tree (the
-code does not check it); this is the one side condition `Legal` does not list -/
-def CreateFresh (sys : Sys) : Op → Prop
-  | .create h _ d => ∀ s, sys[h]? = some s → ∀ x ∈ d, x ∉ s.data.flatMap (·.2)
-  | _ => True
-
-/-- legality of an edit as the samplers compose them -/
-def Legal7 (sys : Sys) (op : Op) : Prop := Legal sys op ∧ CreateFresh sys op
-
 theorem mem_of_get {sys : Sys} {h : Nat} {s : Store} (hs : sys[h]? = some s) : s ∈ sys :=
   List.mem_of_getElem? hs
 
@@ -36,19 +27,19 @@ theorem all_append {P : Store → Prop} {sys : Sys} (hall : ∀ s ∈ sys, P s) 
   · simp at h'; exact h' ▸ hr
 
 /-- **one step preserves the invariant on every live tree** -/
-theorem inv_step {dt : Data} {sys sys' : Sys} {op : Op} (hall : ∀ s ∈ sys, Inv s) (hleg : Legal7 sys op)
-    (hstep : step dt sys op = some sys') : ∀ s ∈ sys', Inv s := by
+theorem inv_step {dt : Data} {sys sys' : Sys} {op : Op} (hall : ∀ s ∈ sys, Inv0 s) (hleg : Legal sys op)
+    (hstep : step dt sys op = some sys') : ∀ s ∈ sys', Inv0 s := by
   cases op with
   | create h ch d =>
     simp only [step, Option.bind_eq_bind, Option.pure_def, Option.bind_eq_some_iff, Option.some.injEq] at hstep
     obtain ⟨s, hs, r, hr, rfl⟩ := hstep
     have hI := hall s (mem_of_get hs)
-    exact all_setH hall h (create_inv hr hI (hleg.1.2 s hs) hleg.1.1 (hleg.2 s hs)).1
+    exact all_setH hall h (create_inv hr hI (hleg.2 s hs).1 hleg.1 (hleg.2 s hs).2).1
   | createAdd h ch dp =>
     simp only [step, Option.bind_eq_bind, Option.pure_def, Option.bind_eq_some_iff, Option.some.injEq] at hstep
     obtain ⟨s, hs, r, hr, r2, hr2, rfl⟩ := hstep
     have hI := hall s (mem_of_get hs)
-    exact all_setH hall h (createAdd_inv hr hr2 hI (hleg.1 s hs)).1
+    exact all_setH hall h (createAdd_inv hr hr2 hI (hleg s hs)).1
   | addDp h dp nd =>
     simp only [step, Option.bind_eq_bind, Option.pure_def, Option.bind_eq_some_iff, Option.some.injEq] at hstep
     obtain ⟨s, hs, r, hr, rfl⟩ := hstep
@@ -76,13 +67,14 @@ theorem inv_step {dt : Data} {sys sys' : Sys} {op : Op} (hall : ∀ s ∈ sys, I
     obtain ⟨s, hs, sb, hsb', r, hr, rfl⟩ := hstep
     have hI := hall s (mem_of_get hs)
     have hIb := hall sb (mem_of_get hsb')
-    rw [touch_nodes_of_full hI.2, touch_nodes_of_full hIb.2] at hr ⊢
-    exact all_setH (all_setH hall hsb hIb) h (removeSubtree_inv hr hI (hleg.1 s sb hs hsb'))
+    rw [touch_nodes_of_full hI.2, touch_nodes_of_full hIb.2] at hr
+    rw [touch_nodes_of_full hIb.2]
+    exact all_setH (all_setH hall hsb hIb) h (removeSubtree_inv hr hI (hleg s sb hs hsb'))
   | addSub h hsb par =>
     simp only [step, Option.bind_eq_bind, Option.pure_def, Option.bind_eq_some_iff, Option.some.injEq] at hstep
     obtain ⟨s, hs, sb, hsb', r, hr, rfl⟩ := hstep
     exact all_setH hall h (addSubtree_inv hr (hall s (mem_of_get hs)) (hall sb (mem_of_get hsb')).1
-      (hleg.1 s sb hs hsb'))
+      (hleg s sb hs hsb'))
   | relabel h =>
     simp only [step, Option.bind_eq_bind, Option.pure_def, Option.bind_eq_some_iff, Option.some.injEq] at hstep
     obtain ⟨s, hs, rfl⟩ := hstep
@@ -108,10 +100,10 @@ theorem inv_step {dt : Data} {sys sys' : Sys} {op : Op} (hall : ∀ s ∈ sys, I
 /-- every edit of a history is legal in the state where it is applied -/
 def LegalRun (dt : Data) : Sys → List Op → Prop
   | _, [] => True
-  | sys, op :: ops => Legal7 sys op ∧ ∀ sys', step dt sys op = some sys' → LegalRun dt sys' ops
+  | sys, op :: ops => Legal sys op ∧ ∀ sys', step dt sys op = some sys' → LegalRun dt sys' ops
 
-theorem inv_run {dt : Data} {ops : List Op} {sys sys' : Sys} (hall : ∀ s ∈ sys, Inv s)
-    (hleg : LegalRun dt sys ops) (hrun : run dt sys ops = some sys') : ∀ s ∈ sys', Inv s := by
+theorem inv_run {dt : Data} {ops : List Op} {sys sys' : Sys} (hall : ∀ s ∈ sys, Inv0 s)
+    (hleg : LegalRun dt sys ops) (hrun : run dt sys ops = some sys') : ∀ s ∈ sys', Inv0 s := by
   induction ops generalizing sys with
   | nil => simp only [run, List.foldlM_nil, Option.pure_def, Option.some.injEq] at hrun; exact hrun ▸ hall
   | cons op ops ih =>
